@@ -58,6 +58,7 @@ def _cells():
     cells.append(np.array([[5.0, 0, 0], [-1.5, 4.0, 0], [0.7, -1.1, 3.0]]))     # negative tilts
     cells.append(1e-3 * chol_from_params(3.7, 4.1, 5.9, 81, 97, 112))            # tiny
     cells.append(1e4 * chol_from_params(3.7, 4.1, 5.9, 81, 97, 112))             # huge
+    cells.append(1e-10 * chol_from_params(3.7, 4.1, 5.9, 81, 97, 112))           # lengths held in metres
     cells.append(np.array([[4.0, 0, 0], [0, 2.0, 0], [0, 0, 8.0]]))             # power of two
     cells.append(np.eye(3))                                                      # default unit box
     cells.append(chol_from_params(3.7, 4.1, 5.9, 81, 97, 112) @ rot([1, 2, 3], 37.0).T)  # rotated, not LAMMPS
@@ -130,7 +131,8 @@ def all_ops():
                     if pset == 'vects' and form == 'direct':
                         continue
                     ops.append({'op': 'define', 'form': form, 'pset': pset, 'cell': ci, 'origin': oi})
-        ops.append({'op': 'vects=', 'cell': ci})
+        if np.abs(v).max() >= 1e-6:     # (a metre-scale cell under an angstrom-scale origin cannot be held by lo/hi bounds)
+            ops.append({'op': 'vects=', 'cell': ci})
     for oi in range(len(ORIGINS)):
         ops.append({'op': 'origin=', 'origin': oi})
         ops.append({'op': 'set_origin_only', 'origin': oi})
@@ -146,6 +148,13 @@ class St:
     pass
 
 
+def _oscale(v):
+    """the origin menu is in units of the cell for cells held in metres (an angstrom-sized origin with a 1e-10 cell cannot
+    be represented by lo/hi bounds: hi - lo cancels) and in absolute units otherwise"""
+    m = np.abs(v).max()
+    return m / 5.0 if m < 1e-6 else 1.0
+
+
 def build(hist):
     st = St()
     box = Box()
@@ -154,7 +163,8 @@ def build(hist):
     for op in hist:
         k = op['op']
         if k == 'define':
-            v, o = CELLS[op['cell']], ORIGINS[op['origin']]
+            v = CELLS[op['cell']]
+            o = ORIGINS[op['origin']] * _oscale(v)
             kw = params_of(v, o, op['pset'])
             if op['form'] == 'ctor':
                 box = Box(**kw)
@@ -167,11 +177,11 @@ def build(hist):
             box.vects = CELLS[op['cell']]
             mv, cache = CELLS[op['cell']].copy(), False
         elif k == 'origin=':
-            box.origin = ORIGINS[op['origin']]
-            mo = ORIGINS[op['origin']].copy()
+            mo = ORIGINS[op['origin']] * _oscale(mv)
+            box.origin = mo.copy()
         elif k == 'set_origin_only':
-            box.set(origin=ORIGINS[op['origin']])
-            mo = ORIGINS[op['origin']].copy()
+            mo = ORIGINS[op['origin']] * _oscale(mv)
+            box.set(origin=mo.copy())
         elif k == 'observe':
             # read every derived quantity once, so that whatever the implementation caches is populated mid-history
             box.reciprocal_vects
